@@ -5,8 +5,10 @@ C18 — property theorems (statements, short derivations from the lemma files, n
 Models (Model.lean): `SBytes` = SpooledBytesIO, `SStr` = SpooledStringIO on the transliterated
 `codecs.StreamReader`, `MFR` = MultiFileReader, `File` = io.BytesIO / TemporaryFile, `Spec.run sem` = the
 same history on a plain file (io.BytesIO for `bytesSem`, io.StringIO(newline='') for `textSem`).
-A history is a `List Op`; `validB` / `validS` are the statement's own domain (appending writes of text,
-seek targets inside the data), evaluated along the reference run.
+A history is a `List Op` (round 2: also `writelines`); `validB` / `validS` are the statement's own domain
+(appending writes of text, seek targets inside the data), evaluated along the reference run.
+Round 2 also ties the model's abstract code units to real UTF-8 bytes (section "the code units of the model are
+real UTF-8 bytes"; lemmas in Utf8.lean, built on `String.utf8EncodeChar` / `ByteArray.utf8DecodeChar?` of Lean core).
 -/
 namespace C18
 
@@ -46,6 +48,23 @@ theorem bytes_queries_invisible (m : Nat) (ops₁ ops₂ : List (Op Byte)) (q : 
   have h2 := bytes_refines_BytesIO m _ hv
   have h3 := Spec.query_invisible bytesSem File.empty ops₁ ops₂ q hq
   exact ⟨by rw [h1.1, h2.1]; exact h3.1, by rw [h1.2, h2.2]; exact h3.2⟩
+
+/-- `writelines(ss)` — a loop of writes, each taking its own rollover decision — is invisible as such: the history
+    returns and ends exactly as with ONE `write` of the joined pieces (any `max_size`, any position) -/
+theorem bytes_writelines_as_one_write (m : Nat) (ops₁ ops₂ : List (Op Byte)) (ss : List (List Byte))
+    (hv : validB File.empty (ops₁ ++ .writelines ss :: ops₂) = true) :
+    ((SBytes.init m).run (ops₁ ++ .writelines ss :: ops₂)).1 = ((SBytes.init m).run (ops₁ ++ .write ss.flatten :: ops₂)).1 ∧
+    ((SBytes.init m).run (ops₁ ++ .writelines ss :: ops₂)).2.buf =
+      ((SBytes.init m).run (ops₁ ++ .write ss.flatten :: ops₂)).2.buf := by
+  have h1 := bytes_refines_BytesIO m _ hv
+  have h2 := bytes_refines_BytesIO m _ (by rw [← validB_writelines]; exact hv)
+  rw [h1.1, h1.2, h2.1, h2.2, Spec.run_writelines]
+  exact ⟨rfl, rfl⟩
+
+/-- and its state (buffer, rolled-over flag) is the state after the writes one by one -/
+theorem bytes_writelines_as_writes (s : SBytes) (ss : List (List Byte)) :
+    (s.step (.writelines ss)).2 = (s.run (ss.map .write)).2 :=
+  SBytes.writelines_as_writes s ss
 
 /-! ## SpooledStringIO -/
 
@@ -94,6 +113,22 @@ theorem string_refines_StringIO_partial (ms ch : Nat) (hch : 0 < ch) (ops : List
   rw [← Spec.run_plain File.empty ops hp]
   exact string_refines_codec_reference ms ch hch ops hv
 
+/-- the same with the excluded region cut down to what matters (round 2): a line-cutting operation must meet no
+    VT / FF / FS / GS / RS / NEL / LS / PS in what it actually READS — the line io.StringIO would return for readline /
+    next, the unread rest for iteration to the end.  Exotic characters elsewhere in the text (skipped by a seek, after
+    the line) are allowed; `plainS` implies `plainT` (`plainS_imp_plainT`), so this contains the theorem above. -/
+theorem string_refines_StringIO_partial_tight (ms ch : Nat) (hch : 0 < ch) (ops : List (Op Char))
+    (hv : validS File.empty ops = true) (hp : plainT File.empty ops = true) :
+    ((SStr.init ms ch).run ops).1 = (Spec.run textSem File.empty ops).1 ∧
+    ((SStr.init ms ch).run ops).2.tell = (Spec.run textSem File.empty ops).2.pos ∧
+    ((SStr.init ms ch).run ops).2.st.data = encode (Spec.run textSem File.empty ops).2.data := by
+  rw [← Spec.run_plainT File.empty ops hp]
+  exact string_refines_codec_reference ms ch hch ops hv
+
+theorem plainS_implies_plainT (ops : List (Op Char)) (h : plainS File.empty ops = true) :
+    plainT File.empty ops = true :=
+  plainS_imp_plainT File.empty ops h
+
 /-- the unrestricted statement fails: after `write('a\x0cb\n'); seek(0)`, `readline()` stops at the form feed -/
 theorem string_readline_exotic_false :
     ∃ (ops : List (Op Char)), validS File.empty ops = true ∧
@@ -121,6 +156,85 @@ theorem string_queries_do_not_move (ms ch : Nat) (hch : 0 < ch) (ops₁ ops₂ :
   have h2 := string_refines_codec_reference ms ch hch _ hv
   have h3 := Spec.query_invisible codecSem File.empty ops₁ ops₂ q hq
   exact ⟨by rw [h1.1, h2.1]; exact h3.1, by rw [h1.2.1, h2.2.1, h3.2], by rw [h1.2.2, h2.2.2, h3.2]⟩
+
+/-- `writelines(ss)` at the end of the text returns and ends as ONE `write` of the joined pieces -/
+theorem string_writelines_as_one_write (ms ch : Nat) (hch : 0 < ch) (ops₁ ops₂ : List (Op Char))
+    (ss : List (List Char)) (hv : validS File.empty (ops₁ ++ .writelines ss :: ops₂) = true) :
+    ((SStr.init ms ch).run (ops₁ ++ .writelines ss :: ops₂)).1 =
+      ((SStr.init ms ch).run (ops₁ ++ .write ss.flatten :: ops₂)).1 ∧
+    ((SStr.init ms ch).run (ops₁ ++ .writelines ss :: ops₂)).2.tell =
+      ((SStr.init ms ch).run (ops₁ ++ .write ss.flatten :: ops₂)).2.tell ∧
+    ((SStr.init ms ch).run (ops₁ ++ .writelines ss :: ops₂)).2.st.data =
+      ((SStr.init ms ch).run (ops₁ ++ .write ss.flatten :: ops₂)).2.st.data := by
+  have h1 := string_refines_codec_reference ms ch hch _ hv
+  have h2 := string_refines_codec_reference ms ch hch _ (by rw [← validS_writelines]; exact hv)
+  rw [h1.1, h1.2.1, h1.2.2, h2.1, h2.2.1, h2.2.2, Spec.run_writelines]
+  exact ⟨rfl, rfl, rfl⟩
+
+theorem string_writelines_as_writes (s : SStr) (ss : List (List Char)) :
+    (s.step (.writelines ss)).2 = (s.run (ss.map .write)).2 :=
+  SStr.writelines_as_writes s ss
+
+/-! ## the code units of the model are real UTF-8 bytes -/
+
+/-- the stream the model stores is, byte for byte (`cuByte`), the UTF-8 encoding of the text — the one of Lean
+    core (`String.utf8EncodeChar`, proved there to invert its UTF-8 decoder), i.e. `String.toUTF8` -/
+theorem utf8_stored_bytes (cs : List Char) :
+    realBytes (encode cs) = cs.flatMap String.utf8EncodeChar ∧
+    realBytes (encode cs) = (String.ofList cs).toUTF8.data.toList := by
+  refine ⟨realBytes_encode cs, ?_⟩
+  rw [realBytes_encode]; simp [List.utf8Encode]
+
+/-- for every history in the domain the bytes SpooledStringIO holds are the UTF-8 of io.StringIO's text -/
+theorem string_stored_bytes_are_utf8 (ms ch : Nat) (hch : 0 < ch) (ops : List (Op Char))
+    (hv : validS File.empty ops = true) :
+    realBytes ((SStr.init ms ch).run ops).2.st.data =
+      (String.ofList (Spec.run codecSem File.empty ops).2.data).toUTF8.data.toList := by
+  rw [(string_refines_codec_reference ms ch hch ops hv).2.2]
+  exact (utf8_stored_bytes _).2
+
+/-- the two tests the model's incremental decoder makes on a code unit `(c, i)` — "does a character start here"
+    (`i = 0`) and "how many units has the character that starts here" (`width c`) — are functions of the real
+    byte alone: lead / continuation byte, and the length class of the lead byte -/
+theorem utf8_decoder_tests_on_real_bytes (c : Char) (i : Nat) (h : i < width c) :
+    (isLead (cuByte (c, i)) = true ↔ i = 0) ∧ leadWidth (cuByte (c, 0)) = width c :=
+  ⟨cuByte_isLead c i h, leadWidth_cuByte c⟩
+
+/-- the incremental decoder run on the REAL bytes (`decodeR`: lead / continuation test and length class read off
+    the bytes, one character decoded by Lean core's verified UTF-8 decoder) returns, on any prefix of the stored
+    stream, what the model's abstract decoder returns on the units: the same whole characters, the real bytes of the
+    same incomplete rest, the same flag.  So "UTF-8 is a prefix code whose incremental decoder returns the maximal
+    run of whole characters" is a theorem about real UTF-8, not an assumption about the abstraction. -/
+theorem utf8_real_decoder_agrees (m : Nat) (cs : List Char) :
+    decodeR (realBytes ((encode cs).take m)) =
+      ((decode ((encode cs).take m)).1, realBytes (decode ((encode cs).take m)).2.1,
+       (decode ((encode cs).take m)).2.2) :=
+  decodeR_take m cs
+
+/-- and it inverts the encoding -/
+theorem utf8_real_decoder_inverts (cs : List Char) : decodeR (realBytes (encode cs)) = (cs, [], false) :=
+  decodeR_encode cs
+
+/-- a CR or LF byte anywhere in the stream is the character CR or LF (never part of another character) -/
+theorem utf8_cr_lf_bytes (c : Char) (i : Nat) (h : i < width c) :
+    (cuByte (c, i) = 10 ↔ c = '\n') ∧ (cuByte (c, i) = 13 ↔ c = '\r') :=
+  ⟨cuByte_eq_lf c i h, cuByte_eq_cr c i h⟩
+
+/-- `readlines()` (StreamRecoder: read all, re-encode, `bytes.splitlines`, decode each piece): cutting the stored
+    BYTES at CR / LF / CRLF gives the encodings of the lines `splitL false` cuts from the text -/
+theorem readlines_bytes_level (cs : List Char) :
+    splitB (realBytes (encode cs)) = (splitL false cs).map (fun l => realBytes (encode l)) :=
+  splitB_realBytes cs
+
+/-- so, after any history in the domain, what `readlines()` returns is — encoded — the `bytes.splitlines` of the
+    bytes after the position -/
+theorem string_readlines_is_bytes_splitlines (ms ch : Nat) (hch : 0 < ch) (ops : List (Op Char))
+    (hv : validS File.empty ops = true) :
+    (((SStr.init ms ch).run ops).2.readlines.1).map (fun l => realBytes (encode l)) =
+      splitB (realBytes (encode (Spec.run codecSem File.empty ops).2.rest)) := by
+  have h := SStr.run_spec (SStr.init ms ch) File.empty ops (SRel_init ms ch hch) hv
+  have hr := SStr.readlines_spec _ _ h.2.1
+  rw [hr.1, h.2.2.1, splitB_realBytes]; rfl
 
 /-! ## MultiFileReader -/
 
@@ -175,11 +289,42 @@ example : ((SStr.init 1000 2).run (demoS.take 3)).2.rd.bytebuf = [('é', 0)] ∧
 example : ((SStr.init 1000 2).run [.write ['é', 'a', 'b'], .seek 0, .read 2]).2.rd.charbuf = ['b'] := by
   decide +kernel
 
+/-- a text WITH a form feed and a NEL, read line by line where io.StringIO's lines avoid them: inside `plainT`
+    (and `validS`), outside `plainS` -/
+def demoT : List (Op Char) :=
+  [.write ['a', Char.ofNat 0x0c, 'b', '\n', 'c', '\r', '\n', Char.ofNat 0x85], .seek 2, .readline, .next, .tell,
+   .seek 0, .read 2, .readline, .readlines, .getvalue]
+example : validS File.empty demoT = true ∧ plainT File.empty demoT = true ∧ plainS File.empty demoT = false := by
+  decide +kernel
+example : ((SStr.init 4 2).run demoT).1 = (Spec.run textSem File.empty demoT).1 := by decide +kernel
+
 def demoB : List (Op Byte) :=
   [.write [97, 10, 98], .seek 1, .readline, .write [99, 10], .seekEnd 2, .next, .len, .seek 0, .list, .tell]
 example : validB File.empty demoB = true := by decide +kernel
 example : ((SBytes.init 2).run demoB).2.rolled = true ∧ ((SBytes.init 99).run demoB).2.rolled = false := by
   decide +kernel
+
+/-- writelines with an empty batch, empty pieces and a rollover in the middle of the batch (max_size 3) -/
+def demoW : List (Op Byte) :=
+  [.writelines [], .writelines [[97], [], [98, 10], [99]], .seek 1, .readline, .seekEnd 0, .writelines [[100]], .getvalue]
+example : validB File.empty demoW = true := by decide +kernel
+example : ((SBytes.init 3).run (demoW.take 2)).2.rolled = true ∧
+    (((SBytes.init 3).step (.writelines [[97], []])).2.rolled = false) := by decide +kernel
+def demoWS : List (Op Char) :=
+  [.writelines [['a'], [], ['é', '\n'], ['日']], .seek 1, .readline, .seekEnd 0, .writelines [['x']], .getvalue]
+example : validS File.empty demoWS = true ∧ plainS File.empty demoWS = true := by decide +kernel
+example : ((SStr.init 4 2).run demoWS).1 = (Spec.run textSem File.empty demoWS).1 := by decide +kernel
+
+/-- real bytes: 'é' = C3 A9, '日' = E6 97 A5, '😀' = F0 9F 98 80; NEL (U+0085 = C2 85) holds no CR / LF byte -/
+example : realBytes (encode ['a', 'é', '日', Char.ofNat 0x1F600]) =
+    [0x61, 0xC3, 0xA9, 0xE6, 0x97, 0xA5, 0xF0, 0x9F, 0x98, 0x80] := by decide +kernel
+/-- the real-bytes decoder stops inside '日' (E6 97 | A5) and keeps the two bytes; a stray continuation byte is an error -/
+example : decodeR [0x61, 0xC3, 0xA9, 0xE6, 0x97] = (['a', 'é'], [0xE6, 0x97], false) ∧
+    (decodeR [0xA9, 0x61]).2.2 = true := by decide +kernel
+example : (isLead 0xC3, isLead 0xA9, leadWidth 0xC3, leadWidth 0xE6, leadWidth 0xF0) = (true, false, 2, 3, 4) := by
+  decide +kernel
+example : splitB (realBytes (encode ['é', '\r', '\n', Char.ofNat 0x85, '\r', 'b'])) =
+    [[0xC3, 0xA9, 13, 10], [0xC2, 0x85, 13], [0x62]] := by decide +kernel
 
 example : ((MFR.init [[1, 2], [], [3, 4, 5]] : MFR Nat).run [.read 3, .read 1, .seek0, .read 4, .readAll]).1
     = [some [1, 2, 3], some [4], none, some [1, 2, 3, 4], some [5]] := by decide +kernel
